@@ -10,15 +10,17 @@ variable {S D : Type} {ops : Ops S D}
 
 /-- A recorded `delta_chunks` call is what the glue makes of two of the sender's snapshots. -/
 def XferOk (ops : Ops S D) (sent : List (Int × S)) (x : Xfer) : Prop :=
-  inI32 x.base ∧ x.bytes ≠ [] ∧
-  ∃ s baseSnap d, (x.tick, s) ∈ sent ∧
+  inI32 x.base ∧
+  ∃ s baseSnap, (x.tick, s) ∈ sent ∧
     ((x.base = -1 ∧ baseSnap = ops.empty) ∨ (0 ≤ x.base ∧ (x.base, baseSnap) ∈ sent)) ∧
-    ops.create baseSnap s = some d ∧ ops.write d = some x.bytes ∧ x.crc = ops.crc s
+    x.crc = ops.crc s ∧
+    ((x.bytes ≠ [] ∧ ∃ d, ops.create baseSnap s = some d ∧ ops.write d = some x.bytes) ∨
+     (x.bytes = [] ∧ ops.same baseSnap s = true))
 
 theorem XferOk.mono {sent : List (Int × S)} {x : Xfer} (h : XferOk ops sent x) (p : Int × S) :
     XferOk ops (p :: sent) x := by
-  obtain ⟨h1, h2, s, b, d, h3, h4, h5⟩ := h
-  refine ⟨h1, h2, s, b, d, List.mem_cons_of_mem _ h3, ?_, h5⟩
+  obtain ⟨h1, s, b, h3, h4, h5⟩ := h
+  refine ⟨h1, s, b, List.mem_cons_of_mem _ h3, ?_, h5⟩
   rcases h4 with h | ⟨h, h'⟩
   · exact Or.inl h
   · exact Or.inr ⟨h, List.mem_cons_of_mem _ h'⟩
@@ -60,9 +62,9 @@ theorem deliver_safe (laws : Laws ops) {y : Sys S} (hg : Good ops y) {m : Msg} (
       Obs.ok y.sent (.delivered m.tick (y.client.step ops m).2.1 y.client.ackTick
         (y.client.step ops m).1.ackTick) := by
   obtain ⟨x, hx, ms, hms, hmm⟩ := hg.msgsOk m hm
-  obtain ⟨hb, hne, s, baseSnap, d, hs, hbase, hcreate, hwrite, hcrc⟩ := hg.xfersOk x hx
+  obtain ⟨hb, s, baseSnap, hs, hbase, hcrc, hform⟩ := hg.xfersOk x hx
   have htick : m.tick = x.tick := (deltaChunks_form' hms).tick_eq m hmm
-  obtain ⟨hr', hdel⟩ := recv_step_safe hg.xfersUniq hg.recvOk hx hb hne hms hmm
+  obtain ⟨hr', hdel⟩ := recv_step_safe hg.xfersUniq hg.recvOk hx hb hms hmm
   have mk : ∀ (c : Manager S), RecvOk y.xfers c.receiver →
       (∀ s', s' ∈ c.storage.snaps → (s'.tick, s'.snap) ∈ y.sent) → Good ops { y with client := c } :=
     fun c h1 h2 => { hg with recvOk := h1, clientStored := h2 }
@@ -81,11 +83,25 @@ theorem deliver_safe (laws : Laws ops) {y : Sys S} (hg : Good ops y) {m : Msg} (
     | some dd =>
       have hdd := hdel dd rfl
       subst hdd
-      simp only [Manager.step, hstep, Manager.addDelta, laws.read_write _ _ hwrite, Option.map_some]
-      obtain ⟨f1, f2, f3⟩ := addDelta_safe (ops := ops) laws hg.sentFun (st := y.client.storage)
-        hg.clientStored hs hbase hcreate
-      rw [hcrc]
-      rcases hres : y.client.storage.addDelta ops (some (ops.crc s)) x.base x.tick d with ⟨st', r2, w⟩
+      -- the delta the manager hands to the storage, and the checksum it passes along
+      have key : ∃ (dl : D) (crc : Option Int),
+          Manager.addDelta ops y.client.storage (delivery x.tick x.base x.crc x.bytes) =
+            (match y.client.storage.addDelta ops crc x.base x.tick dl with
+              | (st', .error e, w) => (st', .error (.storage e), w)
+              | (st', .ok s, w) => (st', .ok s, w)) ∧
+          ops.apply baseSnap dl = .ok s ∧ (∀ c, crc = some c → c = ops.crc s) := by
+        rcases hform with ⟨hne, d, hcreate, hwrite⟩ | ⟨hempty, hsame⟩
+        · refine ⟨d, some x.crc, ?_, laws.apply_create _ _ _ hcreate, fun c hc => by injection hc with hc; rw [← hc, hcrc]⟩
+          simp only [Manager.addDelta, delivery, hne, if_false, laws.read_write _ _ hwrite, Option.map_some]
+          try rfl
+        · refine ⟨ops.clear, none, ?_, laws.same_clear _ _ hsame, fun c hc => by cases hc⟩
+          simp only [Manager.addDelta, delivery, hempty, if_true, Option.map_none]
+          try rfl
+      obtain ⟨dl, crc, hmgr, happly, hcrc'⟩ := key
+      obtain ⟨f1, f2, f3⟩ := addDelta_safe (ops := ops) hg.sentFun (st := y.client.storage)
+        hg.clientStored hs hbase happly hcrc'
+      simp only [Manager.step, hstep, hmgr]
+      rcases hres : y.client.storage.addDelta ops crc x.base x.tick dl with ⟨st', r2, w⟩
       rw [hres] at f1 f2 f3
       simp only at f1 f2 f3
       cases r2 with
@@ -142,90 +158,112 @@ theorem send_safe (laws : Laws ops) {y : Sys S} (hg : Good ops y) {tick : Int} {
     (h : sendSnap ops y.sender tick snap = .ok (st', x, ms)) :
     Good ops { y with sender := st', msgs := y.msgs ++ ms, sent := (tick, snap) :: y.sent,
                       xfers := x :: y.xfers } := by
+  -- the base the sender diffed against
+  have hbase : (y.sender.deltaTick.getD (-1) = -1 ∧
+        y.sender.baseOf ops ({ tick := tick, snap := snap } :: y.sender.snaps) = ops.empty) ∨
+      (0 ≤ y.sender.deltaTick.getD (-1) ∧
+        (y.sender.deltaTick.getD (-1),
+          y.sender.baseOf ops ({ tick := tick, snap := snap } :: y.sender.snaps)) ∈ y.sent) := by
+    cases hdt : y.sender.deltaTick with
+    | none => left; simp [Storage.baseOf, hdt]
+    | some t =>
+      right
+      obtain ⟨h0, d0, hlast, hdtick⟩ := hg.senderDelta t hdt
+      have hl : (({ tick := tick, snap := snap } : Stored S) :: y.sender.snaps).getLast? = some d0 := by
+        rw [List.getLast?_cons, hlast]; rfl
+      have hmem := hg.senderStored d0 (List.mem_of_getLast? hlast)
+      simp only [Storage.baseOf, hdt, hl, Option.getD_some]
+      exact ⟨h0, hdtick ▸ hmem⟩
+  have hbI32 : inI32 (y.sender.deltaTick.getD (-1)) := by
+    rcases hbase with ⟨h, _⟩ | ⟨_, h⟩
+    · rw [h]; decide
+    · exact hg.sentI32 _ h
+  -- everything after the choice of the bytes
+  have finish : ∀ (bytes : List UInt8) (ms' : List Msg),
+      deltaChunks tick (y.sender.deltaTick.getD (-1)) bytes (ops.crc snap) = .ok ms' →
+      ((bytes ≠ [] ∧ ∃ d, ops.create (y.sender.baseOf ops ({ tick := tick, snap := snap } :: y.sender.snaps)) snap = some d ∧
+          ops.write d = some bytes) ∨
+        (bytes = [] ∧ ops.same (y.sender.baseOf ops ({ tick := tick, snap := snap } :: y.sender.snaps)) snap = true)) →
+      Good ops { y with sender := { y.sender with snaps := { tick := tick, snap := snap } :: y.sender.snaps },
+                        msgs := y.msgs ++ ms', sent := (tick, snap) :: y.sent,
+                        xfers := { tick := tick, base := y.sender.deltaTick.getD (-1), bytes := bytes,
+                                   crc := ops.crc snap } :: y.xfers } := by
+    intro bytes ms' hchunks hform
+    have hxok : XferOk ops ((tick, snap) :: y.sent)
+        { tick := tick, base := y.sender.deltaTick.getD (-1), bytes := bytes, crc := ops.crc snap } := by
+      refine ⟨hbI32, snap, _, List.mem_cons_self, ?_, rfl, hform⟩
+      rcases hbase with h | ⟨h, h'⟩
+      · exact Or.inl h
+      · exact Or.inr ⟨h, List.mem_cons_of_mem _ h'⟩
+    constructor
+    · -- sentFun
+      intro p hp q hq hpq
+      rcases List.mem_cons.mp hp with rfl | hp' <;> rcases List.mem_cons.mp hq with rfl | hq'
+      · rfl
+      · have := hnew q hq'; simp only at hpq; omega
+      · have := hnew p hp'; simp only at hpq; omega
+      · exact hg.sentFun p hp' q hq' hpq
+    · intro p hp
+      rcases List.mem_cons.mp hp with rfl | hp'
+      · exact hi
+      · exact hg.sentI32 p hp'
+    · intro s hs
+      rcases List.mem_cons.mp hs with rfl | hs'
+      · exact List.mem_cons_self
+      · exact List.mem_cons_of_mem _ (hg.senderStored s hs')
+    · intro t ht
+      obtain ⟨h0, d0, hlast, hdtick⟩ := hg.senderDelta t ht
+      refine ⟨h0, d0, ?_, hdtick⟩
+      simp only
+      rw [List.getLast?_cons, hlast]; rfl
+    · intro x' hx'
+      rcases List.mem_cons.mp hx' with rfl | hx''
+      · exact hxok
+      · exact (hg.xfersOk x' hx'').mono _
+    · intro a ha b hb hab
+      have oldlt : ∀ x', x' ∈ y.xfers → x'.tick < tick := by
+        intro x' hx'
+        obtain ⟨_, s, _, hs, _⟩ := hg.xfersOk x' hx'
+        exact hnew _ hs
+      rcases List.mem_cons.mp ha with rfl | ha' <;> rcases List.mem_cons.mp hb with rfl | hb'
+      · rfl
+      · have := oldlt b hb'; simp only at hab; omega
+      · have := oldlt a ha'; simp only at hab; omega
+      · exact hg.xfersUniq a ha' b hb' hab
+    · intro m hm
+      rcases List.mem_append.mp hm with hm' | hm'
+      · obtain ⟨x', hx', r⟩ := hg.msgsOk m hm'
+        exact ⟨x', List.mem_cons_of_mem _ hx', r⟩
+      · exact ⟨_, List.mem_cons_self, ms', hchunks, hm'⟩
+    · exact hg.recvOk.mono _
+    · intro s hs
+      exact List.mem_cons_of_mem _ (hg.clientStored s hs)
   unfold sendSnap Storage.addSnap at h
   simp only at h
   cases hcreate : ops.create (y.sender.baseOf ops ({ tick := tick, snap := snap } :: y.sender.snaps)) snap with
   | none => simp [hcreate] at h
   | some d =>
     simp only [hcreate] at h
-    cases hwrite : ops.write d with
-    | none => simp [hwrite] at h
-    | some bytes =>
-      simp only [hwrite] at h
-      cases hchunks : deltaChunks tick (y.sender.deltaTick.getD (-1)) bytes (ops.crc snap) with
+    by_cases hcond : (ops.emptyWhenSame &&
+        ops.same (y.sender.baseOf ops ({ tick := tick, snap := snap } :: y.sender.snaps)) snap) = true
+    · rw [if_pos hcond] at h
+      cases hchunks : deltaChunks tick (y.sender.deltaTick.getD (-1)) [] (ops.crc snap) with
       | panic e => simp [hchunks] at h
       | ok ms' =>
         simp only [hchunks, Outcome.ok.injEq, Prod.mk.injEq] at h
         obtain ⟨rfl, rfl, rfl⟩ := h
-        -- the base the sender diffed against
-        have hbase : (y.sender.deltaTick.getD (-1) = -1 ∧
-              y.sender.baseOf ops ({ tick := tick, snap := snap } :: y.sender.snaps) = ops.empty) ∨
-            (0 ≤ y.sender.deltaTick.getD (-1) ∧
-              (y.sender.deltaTick.getD (-1),
-                y.sender.baseOf ops ({ tick := tick, snap := snap } :: y.sender.snaps)) ∈ y.sent) := by
-          cases hdt : y.sender.deltaTick with
-          | none => left; simp [Storage.baseOf, hdt]
-          | some t =>
-            right
-            obtain ⟨h0, d0, hlast, hdtick⟩ := hg.senderDelta t hdt
-            have hl : (({ tick := tick, snap := snap } : Stored S) :: y.sender.snaps).getLast? = some d0 := by
-              rw [List.getLast?_cons, hlast]; rfl
-            have hmem := hg.senderStored d0 (List.mem_of_getLast? hlast)
-            simp only [Storage.baseOf, hdt, hl, Option.getD_some]
-            exact ⟨h0, hdtick ▸ hmem⟩
-        have hbI32 : inI32 (y.sender.deltaTick.getD (-1)) := by
-          rcases hbase with ⟨h, _⟩ | ⟨_, h⟩
-          · rw [h]; decide
-          · exact hg.sentI32 _ h
-        have hxok : XferOk ops ((tick, snap) :: y.sent)
-            { tick := tick, base := y.sender.deltaTick.getD (-1), bytes := bytes, crc := ops.crc snap } := by
-          refine ⟨hbI32, laws.write_nonempty _ _ hwrite, snap, _, d, List.mem_cons_self, ?_, hcreate, hwrite, rfl⟩
-          rcases hbase with h | ⟨h, h'⟩
-          · exact Or.inl h
-          · exact Or.inr ⟨h, List.mem_cons_of_mem _ h'⟩
-        constructor
-        · -- sentFun
-          intro p hp q hq hpq
-          rcases List.mem_cons.mp hp with rfl | hp' <;> rcases List.mem_cons.mp hq with rfl | hq'
-          · rfl
-          · have := hnew q hq'; simp only at hpq; omega
-          · have := hnew p hp'; simp only at hpq; omega
-          · exact hg.sentFun p hp' q hq' hpq
-        · intro p hp
-          rcases List.mem_cons.mp hp with rfl | hp'
-          · exact hi
-          · exact hg.sentI32 p hp'
-        · intro s hs
-          rcases List.mem_cons.mp hs with rfl | hs'
-          · exact List.mem_cons_self
-          · exact List.mem_cons_of_mem _ (hg.senderStored s hs')
-        · intro t ht
-          obtain ⟨h0, d0, hlast, hdtick⟩ := hg.senderDelta t ht
-          refine ⟨h0, d0, ?_, hdtick⟩
-          simp only
-          rw [List.getLast?_cons, hlast]; rfl
-        · intro x' hx'
-          rcases List.mem_cons.mp hx' with rfl | hx''
-          · exact hxok
-          · exact (hg.xfersOk x' hx'').mono _
-        · intro a ha b hb hab
-          have oldlt : ∀ x', x' ∈ y.xfers → x'.tick < tick := by
-            intro x' hx'
-            obtain ⟨_, _, s, _, _, hs, _⟩ := hg.xfersOk x' hx'
-            exact hnew _ hs
-          rcases List.mem_cons.mp ha with rfl | ha' <;> rcases List.mem_cons.mp hb with rfl | hb'
-          · rfl
-          · have := oldlt b hb'; simp only at hab; omega
-          · have := oldlt a ha'; simp only at hab; omega
-          · exact hg.xfersUniq a ha' b hb' hab
-        · intro m hm
-          rcases List.mem_append.mp hm with hm' | hm'
-          · obtain ⟨x', hx', r⟩ := hg.msgsOk m hm'
-            exact ⟨x', List.mem_cons_of_mem _ hx', r⟩
-          · exact ⟨_, List.mem_cons_self, ms', hchunks, hm'⟩
-        · exact hg.recvOk.mono _
-        · intro s hs
-          exact List.mem_cons_of_mem _ (hg.clientStored s hs)
+        exact finish [] ms' hchunks (Or.inr ⟨rfl, by simp only [Bool.and_eq_true] at hcond; exact hcond.2⟩)
+    · rw [if_neg hcond] at h
+      cases hwrite : ops.write d with
+      | none => simp [hwrite] at h
+      | some bytes =>
+        simp only [hwrite] at h
+        cases hchunks : deltaChunks tick (y.sender.deltaTick.getD (-1)) bytes (ops.crc snap) with
+        | panic e => simp [hchunks] at h
+        | ok ms' =>
+          simp only [hchunks, Outcome.ok.injEq, Prod.mk.injEq] at h
+          obtain ⟨rfl, rfl, rfl⟩ := h
+          exact finish bytes ms' hchunks (Or.inl ⟨laws.write_nonempty _ _ hwrite, d, hcreate, hwrite⟩)
 
 /-! ### whole histories -/
 
